@@ -7,6 +7,8 @@ import Goirc.Model.Flood
 import Goirc.Spec.Flood
 import Driver.LineIO
 import Driver.TrackerIO
+import Driver.ClientIO
+import Driver.SpecIO
 /-!
 # Line-protocol oracle: one request per line on stdin, one reply per line on stdout.
 
@@ -154,11 +156,17 @@ def handle (words : List String) : String :=
 
 structure DState where
   tk : Option TkState := none
+  cl : Option Go.Client.Client := none
+  ns : Option NsState := none
 
 def handleSt (st : DState) (words : List String) : DState × String :=
   match words with
   | "tk" :: ws => let (t, r) := tkHandle st.tk ws; ({ st with tk := t }, r)
-  | _ => (st, handle words)
+  | "cl" :: ws => let (c, r) := clHandle st.cl ws; ({ st with cl := c }, r)
+  | "ns" :: ws => let (n, r) := nsHandle st.ns ws; ({ st with ns := n }, r)
+  | _ => match specHandle words with
+    | some r => (st, r)
+    | none => (st, handle words)
 
 partial def loop (hin hout : IO.FS.Stream) (st : DState) : IO Unit := do
   let line ← hin.getLine
